@@ -1,6 +1,6 @@
 from __future__ import annotations
 
-from typing import TYPE_CHECKING, Any
+from typing import TYPE_CHECKING, Any, Callable
 
 from attrs import NOTHING, Attribute, Factory
 
@@ -62,3 +62,16 @@ def find_structure_handler(
     except RecursionError:
         # This means we're dealing with a reference cycle, so use late binding.
         return c.structure
+
+
+def late_unstructure_handler(type: Any, c: BaseConverter) -> Callable[[Any], Any]:
+    """An unstructure handler for `type` that is looked up when it is called.
+
+    Used to break reference cycles; it dispatches on `type`, like the handler
+    it stands in for, not on the class of the value.
+    """
+
+    def late_unstructure(val, _c=c, _t=type):
+        return _c.unstructure(val, unstructure_as=_t)
+
+    return late_unstructure
